@@ -12,6 +12,13 @@ import (
 
 func VerifFullResyncNeeded(r *RouteTable) bool { return r.fullResyncNeeded }
 
+// VerifBelievesRouteAt reports whether the RouteTable currently believes that one of ITS routes sits
+// at the given key in the kernel (dataplane side of its delta tracker).
+func VerifBelievesRouteAt(r *RouteTable, k RouteKey) bool {
+	_, ok := r.kernelRoutes.Dataplane().Get(k)
+	return ok
+}
+
 func VerifState(r *RouteTable) string {
 	var b strings.Builder
 	srt := func(l []string) string { sort.Strings(l); return strings.Join(l, ",") }
